@@ -22,6 +22,9 @@ from __future__ import annotations
 
 import copy
 import datetime as dt
+import decimal
+import enum
+import fractions
 import itertools
 import os
 import random
@@ -312,6 +315,23 @@ def check_normal_form(p):
         if h._val(r) != h._val(v):
             out.append(('normal-form-text-roundtrip', 'get(set(%r, %r), %r) == %r' % (v, c, c, r)))
             break
+    if not out:
+        # the same through the public text accessor: str(p.value_str(i)) is the text of the i-th value
+        for i, v in enumerate(list(p._values)):
+            st, t = h.call(p.value_str, i)
+            if st == 'exc':
+                out.append(('normal-form-text-roundtrip', 'value_str(%d) of %r (%s) raised %s: %s'
+                            % (i, v, c, type(t).__name__, str(t)[:80])))
+                break
+            text = t if type(t) is str else str(t)
+            st, r = h.call(odml.dtypes.get, text, p._dtype)
+            if st == 'exc':
+                out.append(('normal-form-text-roundtrip', 'value %r (%s) has the text %r, which is refused: %s: %s'
+                            % (v, c, text, type(r).__name__, str(r)[:80])))
+                break
+            if h._val(r) != h._val(v):
+                out.append(('normal-form-text-roundtrip', 'value %r (%s) -> text %r -> value %r' % (v, c, text, r)))
+                break
     q = copy.copy(p)
     q._values = list(p._values)
     st, r = h.call(setattr, q, 'values', q.values)
